@@ -605,6 +605,12 @@ def shim_cholesky(a):
 
 
 def shim_solve_triangular(a, b, trans=0, lower=False, unit_diagonal=False, overwrite_b=False, check_finite=True):
+    if overwrite_b:
+        b_orig = b
+        try:
+            return shim_solve_triangular(a, np.array(b, dtype=object, copy=True), trans=trans, lower=lower, unit_diagonal=unit_diagonal, check_finite=check_finite)
+        finally:
+            _clobber(b_orig, True)
     a, b = to_obj(a), to_obj(np.asarray(b, dtype=object))
     n = a.shape[0]
     if trans in (1, "T", 2, "C"):
@@ -622,6 +628,12 @@ def shim_solve_triangular(a, b, trans=0, lower=False, unit_diagonal=False, overw
 
 
 def shim_lu_factor(a, overwrite_a=False, check_finite=True):
+    if overwrite_a:
+        a_orig = a
+        try:
+            return shim_lu_factor(np.array(a, dtype=object, copy=True), check_finite=check_finite)
+        finally:
+            _clobber(a_orig, True)
     a = to_obj(a)
     n = a.shape[0]
     M = sp.Matrix(n, n, lambda i, j: a[i, j].e)
@@ -636,6 +648,12 @@ def shim_lu_factor(a, overwrite_a=False, check_finite=True):
 
 
 def shim_lu_solve(lu_and_piv, b, trans=0, overwrite_b=False, check_finite=True):
+    if overwrite_b:
+        b_orig = b
+        try:
+            return shim_lu_solve(lu_and_piv, np.array(b, dtype=object, copy=True), trans=trans, check_finite=check_finite)
+        finally:
+            _clobber(b_orig, True)
     lu, piv = lu_and_piv
     lu = to_obj(lu)
     if not np.array_equal(np.asarray(piv), np.arange(lu.shape[0])):
@@ -651,16 +669,34 @@ def shim_lu_solve(lu_and_piv, b, trans=0, overwrite_b=False, check_finite=True):
     return shim_solve_triangular(L, y, trans=1, lower=True)
 
 
+def _clobber(b_orig, flag):
+    """overwrite_b=True / overwrite_a=True hands the operand's memory to LAPACK: its contents are unspecified afterwards (LAPACK writes through numpy's
+    read-only flag when the layout allows in-place work).  The stand-in makes that permission observable: the operand is filled with a poison symbol, so a
+    caller that still needs the array (because it aliases a stored parameter) computes visibly wrong values afterwards"""
+    if not flag or not isinstance(b_orig, np.ndarray) or b_orig.dtype != object:
+        return
+    try:
+        if not b_orig.flags.writeable:
+            b_orig.flags.writeable = True
+        b_orig[...] = SE(sp.Symbol("memory_overwritten_by_LAPACK", real=True))
+    except ValueError:
+        pass  # a view of a read-only base: nothing can write through it in this model
+
+
 def shim_cho_solve(c_and_lower, b, overwrite_b=False, check_finite=True):
     """contract of scipy.linalg.cho_solve((c, lower), b): solves A x = b with A = c c^T (lower: only the lower triangle of c is read) or A = c^T c (upper)"""
     c, lower = c_and_lower
     c = to_obj(c)
-    b = to_obj(np.asarray(b, dtype=object))
+    b_orig = b
+    b = to_obj(np.asarray(b, dtype=object)).copy()
     if lower:
         y = shim_solve_triangular(c, b, lower=True)
-        return shim_solve_triangular(c, y, trans=1, lower=True)
-    y = shim_solve_triangular(c, b, trans=1, lower=False)
-    return shim_solve_triangular(c, y, lower=False)
+        out = shim_solve_triangular(c, y, trans=1, lower=True)
+    else:
+        y = shim_solve_triangular(c, b, trans=1, lower=False)
+        out = shim_solve_triangular(c, y, lower=False)
+    _clobber(b_orig, overwrite_b)
+    return out
 
 
 def shim_sqrtm(a):
@@ -708,6 +744,8 @@ SHIM_TABLE = {
     "sla.cho_solve": "cho_solve((c, lower), b) solves (c c^T) x = b for lower, (c^T c) x = b for upper factors (SciPy's convention, by two triangular solves)",
     "sla.sqrtm": "closed form for 1x1 / 2x2 symmetric positive definite input",
     "sla.block_diag": "block diagonal stacking",
+    "overwrite_a / overwrite_b": "permission to destroy the operand: the stand-ins fill it with a poison symbol after computing the result (worst case of LAPACK's in-place work, which also ignores numpy's read-only flag)",
+    "np.linalg.pinv / inv": "exact (sympy) inverse; pseudo-inverse of a full-rank symbolic matrix by the normal equations",
     "utils.hash_array": "hash of the (expanded) symbolic entries and the shape instead of the array's bytes: equal contents <=> equal hash, as for float arrays of one dtype",
 }
 
@@ -717,6 +755,8 @@ class _NPProxy:
     finite, and isclose / allclose are the documented formula |a - b| <= atol + rtol |b| decided entrywise (forking on symbols)"""
 
     def __getattr__(self, name):
+        if name == "linalg":
+            return _NPLinalgProxy()
         return getattr(np, name)
 
     @staticmethod
@@ -740,6 +780,38 @@ class _NPProxy:
 
     def allclose(self, a, b, rtol=1e-05, atol=1e-08, equal_nan=False):
         return bool(np.all(self.isclose(a, b, rtol=rtol, atol=atol, equal_nan=equal_nan)))
+
+
+class _NPLinalgProxy:
+    """np.linalg.* reached through the module-level `np` of a mici module: pinv / inv / det / solve of exact symbolic arrays by sympy (Moore-Penrose
+    pseudo-inverse of a full-rank matrix by the normal equations); anything else on symbolic operands is undecided"""
+
+    def __getattr__(self, name):
+        real = getattr(np.linalg, name)
+        if not callable(real) or isinstance(real, type):
+            return real
+
+        def guarded(*a, **k):
+            if any(isinstance(x, np.ndarray) and x.dtype == object for x in a):
+                raise Undecided(f"numpy.linalg.{name} on symbolic operands is not modelled")
+            return real(*a, **k)
+        return guarded
+
+    @staticmethod
+    def pinv(a, *args, **k):
+        if not (isinstance(a, np.ndarray) and a.dtype == object):
+            return np.linalg.pinv(a, *args, **k)
+        a = to_obj(a)
+        r, c = a.shape
+        if r <= c:  # full row rank (generic symbolic entries): A^+ = A^T (A A^T)^-1
+            return a.T @ dense_inv(a @ a.T)
+        return dense_inv(a.T @ a) @ a.T
+
+    @staticmethod
+    def inv(a):
+        if not (isinstance(a, np.ndarray) and a.dtype == object):
+            return np.linalg.inv(a)
+        return dense_inv(to_obj(a))
 
 
 def shim_hash_array(a):
